@@ -201,10 +201,12 @@ theorem follow_up_served (req : Request) (resp : Packet) (st : BlockState) (b2 :
     (hb : firstBlock req.message block2Num = some b2) (hc : st.cachedResponse = some cached)
     (hr : req.response = some resp) (hs : resp.options.Sorted) (hcs : cached.options.Sorted)
     (hck : ∀ kv ∈ cached.options, kv.1 ≤ 65535)
-    (hch : chunkAt cached.payload b2.size b2.num = some (chunk, more)) :
+    (hch : chunkAt cached.payload b2.size b2.num = some (chunk, more))
+    (hle : ∀ x, st.cachedSzx = some x → b2.szx ≤ x) :
     ∃ resp', coreRequest M req st =
         ({ req with response := some resp' },
-         { st with lastBlock2 := some b2, cachedResponse := if more then some cached else none }, .ok true) ∧
+         { st with lastBlock2 := some b2, cachedResponse := if more then some cached else none,
+                   cachedSzx := if more then st.cachedSzx else none }, .ok true) ∧
       resp'.payload = chunk ∧ corr resp' = corr resp ∧ resp'.header.code = cached.header.code ∧
       (∃ bs, ({ b2 with more := more } : BlockValue).enc = .ok bs ∧ resp'.getOption block2Num = some [bs]) ∧
       (∀ n, n ≠ block2Num → (cached.getOption n).isSome → resp'.getOption n = cached.getOption n) := by
@@ -212,7 +214,7 @@ theorem follow_up_served (req : Request) (resp : Packet) (st : BlockState) (b2 :
   obtain ⟨resp', bs, hsc, henc, hpay, hcorr, hcode, hopt, hcopt, _⟩ :=
     serveCached_spec req resp b2 cached chunk more hr hok hs hcs hck hch
   have h1 := handleBlock1_pass req M st size hb1 hsz hn
-  have h2 := handleBlock2_cached req st b2 cached hb hc
+  have h2 := handleBlock2_cached req st b2 cached hb hc hle
   rw [hsc] at h2
   refine ⟨resp', ?_, hpay, hcorr, hcode, ⟨bs, henc, hopt⟩, hcopt⟩
   simp only [coreRequest, h1]
@@ -320,24 +322,8 @@ theorem serveCached_messageT (req : Request) (rb2 : BlockValue) (cached : Packet
 /-- `handleBlock2` touches neither the request message nor the upload buffer -/
 theorem handleBlock2_frameT (req : Request) (st : BlockState) :
     (handleBlock2 req st).1.message = req.message ∧
-    (handleBlock2 req st).2.1.cachedPayload = st.cachedPayload := by
-  unfold handleBlock2
-  simp only
-  split
-  · rename_i b2 cached _ _
-    have hm := serveCached_messageT req b2 cached
-    split
-    · rename_i req' more heq
-      rw [heq] at hm
-      refine ⟨hm, ?_⟩
-      split <;> rfl
-    · rename_i req' c heq
-      rw [heq] at hm
-      exact ⟨hm, rfl⟩
-    · rename_i req' heq
-      rw [heq] at hm
-      exact ⟨hm, rfl⟩
-  · exact ⟨rfl, rfl⟩
+    (handleBlock2 req st).2.1.cachedPayload = st.cachedPayload :=
+  ⟨(handleBlock2_frame req st).1, (handleBlock2_frame req st).2.2.2⟩
 
 /-- a non-final block – first delivery or consecutive re-delivery, and for block
 0 whatever an abandoned upload left in the buffer – is answered 2.31 Continue
